@@ -15,7 +15,8 @@
    the trigger T_F5a: C16_refines_partial, and its consequences by name below.  F5b
    (uint64 counters) and F5c (`add` shortcut applied twice to grouped counters) were
    repaired in /repo; the model follows the repaired code and needs no trigger for them. *)
-From Verif Require Import Common C16_Model C16_Spec C16_Corr C16_Proofs.
+From Coq Require Import Permutation.
+From Verif Require Import Common C16_Model C16_Spec C16_Corr C16_Proofs C16_Conc.
 Local Open Scope N_scope.
 
 Definition C16_full_statement : Prop := forall bs, in_domain bs = true -> P bs (run bs) = true.
@@ -104,4 +105,91 @@ Proof.
   repeat split; try (vm_compute; reflexivity).
   - vm_compute. left; reflexivity.
   - vm_compute. intros [H|[]]. discriminate.
+Qed.
+
+(* ---- batches arriving at the same time (hooks in different queues run in parallel) ----
+   The model takes the batches of a round as atomic steps in some order il (a permutation
+   of the round); [conc_run history round il] = (failed? for every batch of the round,
+   Gather() at the end); [P_case] = C16_Spec's predicate for a history followed by a round
+   (failures are those of validation; the registry shows the reference registry after
+   SOME order of the round); [last_touch g bs] = the last accepted batch of bs that
+   mentions group g, [group_view g b] = what b's operations for g build from nothing;
+   [distinct_groups il] = no group is mentioned by two accepted batches of il. *)
+
+(* whether SendBatch fails is decided by validation alone: it does not depend on the
+   state, hence not on what the other executions did before *)
+Theorem C16_failure_is_state_independent : forall st st' hook ops,
+  snd (hook_batch st hook ops) = snd (hook_batch st' hook ops)
+  /\ snd (hook_batch st hook ops) = negb (forallb spec_valid ops).
+Proof. intros st st' hook ops. split; [apply failure_state_independent | apply hook_batch_fails]. Qed.
+Print Assumptions C16_failure_is_state_independent.
+
+(* for every history, every round, EVERY order in which the round's batches take effect
+   and every continuation of the history after the round, the model's observations satisfy
+   the predicate (outside the F5a trigger) *)
+Theorem C16_concurrent_linearised : forall history round il after,
+  round <> [] -> In il (lperms round) ->
+  in_domain (history ++ il ++ after) = true -> T_F5a (history ++ il ++ after) = false ->
+  P_case history (run history) round (conc_run history round il) after (after_run history il after) = true.
+Proof. exact conc_linearised. Qed.
+Print Assumptions C16_concurrent_linearised.
+
+(* after any history the series of a group are exactly those its LAST accepted batch gave *)
+Theorem C16_last_batch_wins : forall bs,
+  in_domain bs = true -> T_F5a bs = false ->
+  forall g, g <> 0 -> forall e, egroup e = g ->
+    (In e (tagged (final_state bs)) <-> In e (group_view g (last_touch g bs))).
+Proof. exact last_batch_wins. Qed.
+Print Assumptions C16_last_batch_wins.
+
+(* batches over pairwise different groups: the grouped series after the round do not
+   depend on the order in which the batches took effect *)
+Theorem C16_concurrent_order_independent : forall history il1 il2,
+  Permutation il1 il2 -> distinct_groups il1 ->
+  in_domain (history ++ il1) = true -> T_F5a (history ++ il1) = false ->
+  in_domain (history ++ il2) = true -> T_F5a (history ++ il2) = false ->
+  forall e, egroup e <> 0 ->
+    (In e (tagged (final_state (history ++ il1))) <-> In e (tagged (final_state (history ++ il2)))).
+Proof. exact conc_order_independent. Qed.
+Print Assumptions C16_concurrent_order_independent.
+
+(* ... and for any order each group shows what the round's batch that mentions it gave
+   (a group the round does not mention: what the history's last batch for it gave) *)
+Theorem C16_concurrent_group_view : forall history il,
+  in_domain (history ++ il) = true -> T_F5a (history ++ il) = false ->
+  forall g, g <> 0 -> forall e, egroup e = g ->
+    (In e (tagged (final_state (history ++ il)))
+     <-> In e (group_view g (match last_touch g il with Some b => Some b | None => last_touch g history end))).
+Proof. exact conc_group_view. Qed.
+Print Assumptions C16_concurrent_group_view.
+
+(* non-vacuity: after ex_history, three executions hand in batches at the same time: hook 1
+   and hook 2 both report the metric name 7 for the first time (each in a group of its own),
+   hook 2 also replaces group 3, a third batch expires group 2 and carries an ungrouped add;
+   all six orders are in the domain and free of collisions, the groups are pairwise
+   different, and the round changes what is shown *)
+Definition ex_round : list batch :=
+  [ (1, [mkOp 4 7 ASet (Some 24%Z) None None None [(1, 1)]; mkOp 4 1 ASet (Some 8%Z) None None None [(1, 1); (11, 2)]]);
+    (2, [mkOp 5 7 ASet (Some 12%Z) None None None [(2, 1)]; mkOp 3 2 AAdd (Some 16%Z) None None None [(11, 1)]]);
+    (1, [mkOp 2 0 AExpire None None None None []; mkOp 0 3 AAdd (Some 4%Z) None None None [(2, 1)]]) ].
+
+Example C16_conc_hyp_met :
+  length (lperms ex_round) = 6%nat
+  /\ forallb (fun il => in_domain (ex_history ++ il) && negb (T_F5a (ex_history ++ il))) (lperms ex_round) = true
+  /\ Permutation ex_round (rev ex_round)
+  /\ distinct_groups ex_round
+  /\ last_touch 4 (ex_history ++ ex_round) = Some (nth 0 ex_round (0, []))
+  /\ last_touch 1 (ex_history ++ ex_round) = Some (nth 0 ex_history (0, []))
+  /\ same_series (snd (conc_run ex_history ex_round ex_round)) (gather (final_state ex_history)) = false
+  /\ in_domain (ex_history ++ rev ex_round ++ [ex_last]) = true
+  /\ T_F5a (ex_history ++ rev ex_round ++ [ex_last]) = false
+  /\ P_case ex_history (run ex_history) ex_round (conc_run ex_history ex_round (rev ex_round))
+            [ex_last] (after_run ex_history (rev ex_round) [ex_last]) = true.
+Proof.
+  split; [vm_compute; reflexivity|]. split; [vm_compute; reflexivity|].
+  split; [apply Permutation_rev|].
+  split; [apply distinct_groups_dec; vm_compute; reflexivity|].
+  split; [vm_compute; reflexivity|]. split; [vm_compute; reflexivity|].
+  split; [vm_compute; reflexivity|]. split; [vm_compute; reflexivity|].
+  split; vm_compute; reflexivity.
 Qed.
